@@ -33,6 +33,9 @@ Programs == <<
   EBin("where", L, ELam(<<Req("x")>>, EBin("lt", X, EBin("sub", Call1(F, N(0)), N(8))))),
   EBin("into", EBin("via", L, ELam(<<Req("x")>>, EList(<<X, Call1(F, X)>>))), EId("len")),
   ECall(EId("sort_by"), <<EList(<<N(3), N(1), N(2)>>), ELam(<<Req("x")>>, EBin("sub", N(0), X))>>),
+  \* a block whose return is an assignment to a name that is bound outside: the block binds its own copy, every time
+  EDo(<<>>, EAsg("g", Plus(G, N(1)))),
+  Plus(EDo(<<>>, EAsg("g", Plus(G, N(1)))), EDo(<<EAsg("t", N(5))>>, EAsg("g", Plus(G, EId("t"))))),
   \* heap values built in place or bound beforehand: records, strings, spreads, field access, logical operators
   ECall(EId("sort_by"), <<EList(<<ERec(<<RStatic(<<12>>, N(2))>>), ERec(<<RStatic(<<12>>, N(1))>>)>>), ELam(<<Req("x")>>, EDot(X, <<12>>))>>),
   EDot(ERec(<<RStatic(<<12>>, EList(<<N(1), Call1(F, N(1))>>)), RSpreadE(ERec(<<RStatic(<<13>>, L)>>)), RStatic(<<14>>, G)>>), <<13>>),
